@@ -73,15 +73,21 @@ TIES = {
                            ("C12", ["DsProofs.TieC.TIEC_fork", "DsProofs.TieC.TIEC_getitem"])]),
     "addops": dict(translator="translate_addops", targets=["GenD", "TieD"], audit="AuditTieD.lean", root="TieD", driver=None,
                    modules=["GenD.Ops", "TieD.Properties", "TieD.Reach"],
-                   what="ADD.restrict, ADD.modelcount, ADD.sum, ADD.concatenate, ADD.stack, ADD.update, ADD.construct_chain, ShapleyOracle.__init__, ShapleyOracle.query (harness/translate_addops.py -> lean/GenD/Ops.lean)",
+                   what="ADD.restrict, ADD.modelcount, ADD.sum, ADD.concatenate, ADD.stack, ADD.get_update_location, ADD.update, ADD.construct_chain, ShapleyOracle.__init__, ShapleyOracle.query (harness/translate_addops.py -> lean/GenD/Ops.lean)",
                    reg=[("C10", ["DsProofs.TieD.TIED_restrict", "DsProofs.TieD.TIED_modelcount", "DsProofs.TieD.TIED_restrict_reach", "DsProofs.TieD.TIED_modelcount_reach",
-                                 "DsProofs.TieD.reach_shape", "DsProofs.TieD.TIED_sum", "DsProofs.TieD.TIED_update", "DsProofs.TieD.TIED_chain", "DsProofs.TieD.TIED_concat", "DsProofs.TieD.TIED_stack"]),
-                        ("C09", ["DsProofs.TieD.TIED_query", "DsProofs.TieD.TIED_init", "DsProofs.TieD.TIED_restrict_reach", "DsProofs.TieD.TIED_modelcount_reach", "DsProofs.TieD.TIED_sum", "DsProofs.TieD.TIED_concat", "DsProofs.TieD.TIED_stack"]),
+                                 "DsProofs.TieD.reach_shape", "DsProofs.TieD.TIED_sum", "DsProofs.TieD.TIED_update", "DsProofs.TieD.TIED_chain", "DsProofs.TieD.TIED_concat", "DsProofs.TieD.TIED_stack", "DsProofs.TieD.TIED_getloc"]),
+                        ("C09", ["DsProofs.TieD.TIED_query", "DsProofs.TieD.TIED_init", "DsProofs.TieD.TIED_restrict_reach", "DsProofs.TieD.TIED_modelcount_reach", "DsProofs.TieD.TIED_sum", "DsProofs.TieD.TIED_concat", "DsProofs.TieD.TIED_stack", "DsProofs.TieD.TIED_getloc"]),
                         ("C02", ["DsProofs.TieD.TIED_query"])]),
     "exprops": dict(translator="translate_expr", targets=["GenE", "TieE"], audit="AuditTieE.lean", root="TieE", driver=None,
                     modules=["GenE.Ops", "TieE.Properties"],
                     what="the operators & and | of Equality / Conjunction / Disjunction, 18 branches (harness/translate_expr.py -> lean/GenE/Ops.lean)",
                     reg=[("C11", ["DsProofs.TieE.TIEE_and", "DsProofs.TieE.TIEE_or", "DsProofs.TieE.TIEE_C11_and", "DsProofs.TieE.TIEE_C11_or"])]),
+    "exprdata": dict(translator="translate_exprdata", targets=["GenE", "TieE"], audit="AuditTieED.lean", root="TieE", driver=None,
+                     modules=["GenE.Data", "TieE.DataProofs"],
+                     what="Expression.data / from_data of Equality, Conjunction, Disjunction (template translation, harness/translate_exprdata.py -> lean/GenE/Data.lean)",
+                     reg=[("C11", ["DsProofs.TieE.TIEE_conj_data", "DsProofs.TieE.TIEE_disj_data", "DsProofs.TieE.TIEE_from_data", "DsProofs.TieE.TIEE_roundtrip",
+                                   "DsProofs.TieE.TIEE_roundtrip_stored", "DsProofs.TieE.TIEE_data_from_data"]),
+                          ("C19", ["DsProofs.TieE.TIEE_from_data", "DsProofs.TieE.TIEE_roundtrip_stored"])]),
     "provinit": dict(translator="translate_init", targets=["GenI", "TieI"], audit="AuditTieI.lean", root="TieI", driver=None,
                      modules=["GenI.Init", "TieI.Properties"],
                      what="Provenance.__init__: the data path for 1-D data (default container, group identifiers) and the expressions path (padding and stacking of the formulas) (template translation, harness/translate_init.py -> lean/GenI/Init.lean)",
